@@ -88,6 +88,9 @@ func HostTable(layout string, cfg Cfg) KernelIn {
 		t = append(t, c12.KLine{ID: "29", Parent: "21", Dev: "8:2", Root: "/", MP: cfg.Base, Opts: "rw,relatime", Fstype: "ext4", Source: "/dev/sdb1", Sopts: rw})
 	case "bindbase":
 		t = append(t, c12.KLine{ID: "29", Parent: "21", Dev: "8:1", Root: "/srv/lc", MP: cfg.Base, Opts: "rw,relatime", Fstype: "ext4", Source: "/dev/root", Sopts: rw})
+	case "twicebound": // the same subtree mounted at two places; the base path is the later alias
+		t = append(t, c12.KLine{ID: "29", Parent: "21", Dev: "8:3", Root: "/data", MP: "/srv/alias", Opts: "rw,relatime", Fstype: "ext4", Source: "/dev/sdc1", Sopts: rw},
+			c12.KLine{ID: "30", Parent: "21", Dev: "8:3", Root: "/data", MP: cfg.Base, Opts: "rw,relatime", Fstype: "ext4", Source: "/dev/sdc1", Sopts: rw})
 	}
 	return KernelIn{Tab: t, NextID: 100, NextDev: 60}
 }
@@ -249,7 +252,8 @@ func GenForest(r *rng.R, cfg Cfg, maxLayers int, healthy bool) []LayerSpec {
 		}
 		for k := r.Heavy(3); k > 0; k-- {
 			l.Files = append(l.Files, r.Pick([]string{"build/usr/data.bin", "packages/app-1.tbz2", "generated/out.txt",
-				"overlayfs/upperdir/etc/conf", "notes.txt", "build/root/.profile", "stage3.tar.xz"}))
+				"overlayfs/upperdir/etc/conf", "notes.txt", "build/root/.profile", "stage3.tar.xz",
+				"overlayfs/workdir/notes.txt", "overlayfs/workdir/work/leftover", "overlayfs/keep.txt"}))
 		}
 		sort.Strings(l.Files)
 		l.Files = dedupStrings(l.Files)
@@ -272,7 +276,7 @@ func GenWorld(r *rng.R, maxLayers int, healthy bool) WorldSpec {
 	ws := WorldSpec{BaseName: r.Pick([]string{"b", "b", "b", "lc root", "deep/er/base"})}
 	cfg := StdCfg(ws.BaseName)
 	ws.Layers = GenForest(r, cfg, maxLayers, healthy)
-	ws.HostLayout = r.Pick([]string{"plain", "plain", "stacked", "sepfs"})
+	ws.HostLayout = r.Pick([]string{"plain", "plain", "stacked", "sepfs", "bindbase", "twicebound"})
 	ws.HostDirs = []string{cfg.Base + "/host/repos", cfg.Base + "/host/distfiles"}
 	if r.Chance(1, 5) {
 		ws.HostDirs = ws.HostDirs[:1]
